@@ -6,7 +6,7 @@ From Coq Require Import ZArith.
 From Fabio Require Import Lib.Outcome Lib.Bytes Model.WtF64 Model.TableCmd Model.RouteText Model.RouteCmd
      Proofs.TableCmd Proofs.RouteCmd
      Model.Consul Model.Watch Model.ConsulSpec Proofs.Consul Proofs.Watch
-     Model.RegistryTable Proofs.RegistryTable.
+     Model.RegistryTable Proofs.ManualOnTop Proofs.RegistryTable.
 Import ListNotations.
 Local Open Scope N_scope.
 
@@ -122,13 +122,22 @@ Theorem C01_svc_lines_from_healthy : forall prefix status strict checks catalog 
 Proof. exact svc_lines_from_healthy. Qed.
 Print Assumptions C01_svc_lines_from_healthy.
 
-Theorem C01_unhealthy_not_in_config : forall prefix status strict checks catalog ls x,
-  config_lines prefix catalog (watch_passing prefix status strict checks) = Ok ls ->
-  In x (sort_desc ls) ->
-  exists e, In e catalog /\ In x (e_cmds e) /\
-            registered (checks_with_tag_prefix prefix checks) (e_node e) (e_sid e) /\
-            healthy (checks_with_tag_prefix prefix checks) status strict (e_node e) (e_sid e).
-Proof. exact unhealthy_not_in_config. Qed.
+(* The lines are exactly, in order, the commands of the catalog entries serviceConfig selects
+   ([selected_c], Proofs/Consul.v) ... *)
+Theorem C01_config_is_selected_commands : forall prefix catalog passing ls,
+  config_lines prefix catalog passing = Ok ls -> ls = flat_map e_cmds (selected_c catalog (group passing)).
+Proof. exact config_lines_selected. Qed.
+Print Assumptions C01_config_is_selected_commands.
+
+(* ... and (contrapositive of the above) an entry whose instance is not healthy, or not
+   registered, or not tagged in the observed state is not among them: none of ITS commands is
+   in the pushed config (the same text can only be there as the command of another, healthy
+   entry). *)
+Theorem C01_unhealthy_not_in_config : forall prefix status strict checks catalog e,
+  ~ (registered (checks_with_tag_prefix prefix checks) (e_node e) (e_sid e)
+     /\ healthy (checks_with_tag_prefix prefix checks) status strict (e_node e) (e_sid e)) ->
+  ~ In e (selected_c catalog (group (watch_passing prefix status strict checks))).
+Proof. exact unhealthy_entry_not_selected. Qed.
 Print Assumptions C01_unhealthy_not_in_config.
 
 (* The other direction, over the generated commands: every command routecmd.build has for
@@ -171,24 +180,86 @@ Theorem C01_watch_invariant : forall (table : Type) (build : str -> option table
 Proof. exact run_init_inv. Qed.
 Print Assumptions C01_watch_invariant.
 
-(* The watcher delivers one config per observed snapshot, in snapshot order (Model/Consul.v
-   [watch_deliveries]: one snapshot is fully processed before the next blocking query is
-   issued; tied to /repo by the delayed-catalog histories of the correspondence run).  So the
-   last delivered service config is the final registry state's ... *)
-Theorem C01_last_delivery_is_final_state : forall prefix status strict snaps final tf h d,
-  map (@Ok str) (svc_texts h) = watch_deliveries prefix status strict (snaps ++ [final]) ->
-  svc_config prefix status strict (fst final) (snd final) = Ok tf ->
+(* The watcher, Model/Consul.v [watch_deliveries]: one round is fully processed before the next
+   blocking query is issued; a round whose health query or catalog lookup fails delivers nothing
+   (since /repo c8f84e8); the others deliver their config, in observation order.  Mechanism
+   lemmas (near-definitional in the model; tied to /repo by the delayed-catalog and
+   lookup-failure histories of the correspondence run): *)
+Theorem C01_failed_round_delivers_nothing : forall prefix status strict a o b,
+  delivers prefix status strict o = false ->
+  watch_deliveries prefix status strict (a ++ o :: b) = watch_deliveries prefix status strict (a ++ b).
+Proof. exact failed_round_delivers_nothing. Qed.
+Print Assumptions C01_failed_round_delivers_nothing.
+
+Theorem C01_last_delivery_is_final_state : forall prefix status strict obs final fails tf h d,
+  svc_texts h = watch_deliveries prefix status strict (obs ++ final :: fails) ->
+  observe_config prefix status strict final = Ok tf ->
+  forallb (fun o => negb (delivers prefix status strict o)) fails = true ->
   last_svc h d = tf.
 Proof. exact last_delivery_is_final_state. Qed.
 Print Assumptions C01_last_delivery_is_final_state.
 
-(* ... and once the registry's view stops changing at state [final], the active table is the
-   table of final's config plus the last manual text. *)
-Theorem C01_watch_quiescent_final_state : forall (table : Type) (build : str -> option table)
-    prefix status strict snaps final tf (w : wstate table) h e T,
+(* A round in which the catalog lookup of a service with a passing instance fails yields no
+   config at all - so nothing is pushed and the routes of that service stay in the table ... *)
+Theorem C01_failed_lookup_no_config : forall failing prefix status strict checks catalog svc,
+  In svc (watch_passing prefix status strict checks) -> c_sname svc <> [] -> In (c_sname svc) failing ->
+  is_ok (svc_config_o failing prefix status strict checks catalog) = false.
+Proof. exact failed_lookup_no_config. Qed.
+Print Assumptions C01_failed_lookup_no_config.
+
+(* ... and when every lookup succeeds the round is the one of the error-free model. *)
+Theorem C01_no_failure_same_config : forall prefix status strict checks catalog,
+  svc_config_o [] prefix status strict checks catalog = svc_config prefix status strict checks catalog.
+Proof. exact svc_config_o_nil. Qed.
+Print Assumptions C01_no_failure_same_config.
+
+(* finding F-C01-3, repaired in /repo by the fix: commit c8f84e8: a failed lookup used to be
+   treated as "no instances" and the config pushed all the same ([svc_config_lookup_unrepaired]),
+   taking the command of a healthy, registered, tagged instance out of the table; the repaired
+   round pushes nothing *)
+Theorem C01_failed_lookup_unroutes_refuted :
+  exists failing prefix status checks catalog e line,
+    In e catalog /\ In line (e_cmds e) /\ In (e_sname e) failing /\
+    healthy checks status false (e_node e) (e_sid e) /\ registered checks (e_node e) (e_sid e) /\
+    (exists text, svc_config prefix status false checks catalog = Ok text /\ In line (split_byte text 10)) /\
+    (exists text, svc_config_lookup_unrepaired failing prefix status false checks catalog = Ok text
+                  /\ ~ In line (split_byte text 10)) /\
+    svc_config_o failing prefix status false checks catalog = Err err_catalog.
+Proof. exact failed_lookup_unroutes_refuted. Qed.
+Print Assumptions C01_failed_lookup_unroutes_refuted.
+
+(* the manual side, Model/Consul.v [kv_deliveries] / [kv_text] (kv.go watchKV / listKV): the last
+   delivered manual text is the text of the final KV state (mechanism lemma, as above) *)
+Theorem C01_last_manual_is_final_kv : forall obs pairs fails h d,
+  man_texts h = kv_deliveries (obs ++ KvState pairs :: fails) ->
+  forallb kv_failed fails = true ->
+  last_man h d = kv_text pairs.
+Proof. exact last_manual_is_final_kv. Qed.
+Print Assumptions C01_last_manual_is_final_kv.
+
+(* Quiescence in terms of the registry and the KV store (the "KV override edits" of the
+   quantifier): once the health/catalog view stops changing at the state observed in round
+   [final] and the KV path at [pairs] (later rounds of either watcher, if any, fail), the active
+   table is the table of final's config followed by the operator's text for [pairs]. *)
+Theorem C01_watch_quiescent_registry : forall (table : Type) (build : str -> option table)
+    prefix status strict obs final fails tf kobs pairs kfails (w : wstate table) h e T,
   inv table build w ->
-  map (@Ok str) (svc_texts (h ++ [e])) = watch_deliveries prefix status strict (snaps ++ [final]) ->
-  svc_config prefix status strict (fst final) (snd final) = Ok tf ->
+  svc_texts (h ++ [e]) = watch_deliveries prefix status strict (obs ++ final :: fails) ->
+  observe_config prefix status strict final = Ok tf ->
+  forallb (fun o => negb (delivers prefix status strict o)) fails = true ->
+  man_texts (h ++ [e]) = kv_deliveries (kobs ++ KvState pairs :: kfails) ->
+  forallb kv_failed kfails = true ->
+  build (next_text tf (kv_text pairs)) = Some T ->
+  w_active (run table build w (h ++ [e])) = T /\ w_first (run table build w (h ++ [e])) = true.
+Proof. exact watch_quiescent_registry. Qed.
+Print Assumptions C01_watch_quiescent_registry.
+
+Theorem C01_watch_quiescent_final_state : forall (table : Type) (build : str -> option table)
+    prefix status strict obs final fails tf (w : wstate table) h e T,
+  inv table build w ->
+  svc_texts (h ++ [e]) = watch_deliveries prefix status strict (obs ++ final :: fails) ->
+  observe_config prefix status strict final = Ok tf ->
+  forallb (fun o => negb (delivers prefix status strict o)) fails = true ->
   build (next_text tf (last_man (h ++ [e]) (w_man w))) = Some T ->
   w_active (run table build w (h ++ [e])) = T /\ w_first (run table build w (h ++ [e])) = true.
 Proof. exact watch_quiescent_final_state. Qed.
@@ -368,6 +439,48 @@ Theorem C01_unhealthy_absent_table : forall pw canon gl env prefix status strict
                table_holds pw canon gl env prefix status strict checks rcat dm T.
 Proof. exact unhealthy_absent_table. Qed.
 Print Assumptions C01_unhealthy_absent_table.
+
+(* ANY manual text the parser accepts ('route add' / 'route del' / 'route weight' in any mix):
+   the table is the operator's commands applied, in order, to the table of the service routes
+   ([run_from] on the unsorted service table [t0]), and - apart from weight and options - each
+   of its targets is that of a routed intent of the state or of a manual 'route add'
+   ([allowed_core]): del and weight bring nothing in, so an instance that is unhealthy in the
+   state has no target of its own whatever the operator wrote. *)
+Theorem C01_svc_table_any_manual : forall pw canon gl env prefix status strict checks rcat,
+  consistent checks rcat ->
+  forall m T text, registry_config pw canon gl env prefix status strict checks rcat = Ok text ->
+  new_table pw canon gl (next_text text m) = Ok T ->
+  exists dm t0, parse pw m = Ok dm
+    /\ new_table pw canon gl text = Ok (sort_table t0)
+    /\ (do t <- run_from canon gl t0 dm; Ok (sort_table t))%outcome = Ok T
+    /\ forall x, In x (flat T) -> allowed_core pw canon gl env prefix status strict checks rcat dm (core x).
+Proof. exact svc_table_any_manual. Qed.
+Print Assumptions C01_svc_table_any_manual.
+
+Theorem C01_allowed_core_unfold : forall pw canon gl env prefix status strict checks rcat dm c,
+  allowed_core pw canon gl env prefix status strict checks rcat dm c <->
+  (exists i d url, routed_intent pw canon gl env prefix status strict checks rcat i
+                   /\ parse_line pw (render_intent i) = Ok (Some d)
+                   /\ canon (d_dst d) = Some url /\ c = add_core d url)
+  \/ (exists d url, In d dm /\ d_cmd d = CmdAdd /\ canon (d_dst d) = Some url /\ c = add_core d url).
+Proof. exact allowed_core_unfold. Qed.
+Print Assumptions C01_allowed_core_unfold.
+
+(* "An instance that has become unhealthy is absent from every table installed after that
+   state was observed", with NO condition on the manual deliveries: from the delivery of the
+   state's config on, until a newer service config arrives, every installed table has only
+   targets of routed intents of that state and of manual 'route add's. *)
+Theorem C01_unhealthy_absent_any_manual : forall pw canon gl env prefix status strict checks rcat,
+  consistent checks rcat ->
+  forall (w : wstate table) text h1 h2 tt,
+  registry_config pw canon gl env prefix status strict checks rcat = Ok text ->
+  forallb is_man h2 = true ->
+  In tt (installs table (table_builder pw canon gl) w (h1 ++ Svc text :: h2)) ->
+  In tt (installs table (table_builder pw canon gl) w h1) \/
+  exists m dm T, tt = next_text text m /\ parse pw m = Ok dm /\ new_table pw canon gl tt = Ok T /\
+                 forall x, In x (flat T) -> allowed_core pw canon gl env prefix status strict checks rcat dm (core x).
+Proof. exact unhealthy_absent_any_manual. Qed.
+Print Assumptions C01_unhealthy_absent_any_manual.
 
 (* a concrete state: two instances of one service, one critical, a blank-padded routing tag, an
    upper-case host, and a third HEALTHY instance whose registration cannot be expressed (a tag
